@@ -65,6 +65,9 @@ CHECKS = {
     "C19": dict(cat="model_checking", tech="bounded-exhaustive input exploration with the oracle evaluated on the returned numbers + stateless exploration of all add/remove sequences on the real incremental model (plus merged BFS on the set of present conditionals)", ref="DESIGN.md 4/C19",
                 text="All priors -> {0..2} over one atom and a third of those over two atoms (thorough: all, plus three atoms) x all lists of 1-2 revision conditionals of a 12-element alphabet x gamma_plus_zero x 5 fixed-value maps x {fast, incremental}: returned parameters are naturals, respect fixed values, revised ranking accepts all; None only without witness in a box; never raises; Pareto minimality by enumerating the box below; three compilations equal the definition. CRevisionModel: every add/remove sequence of depth <=3 (thorough 4) over 4 conditionals keeps to_compilation() equal to a fresh reference compilation.",
                 note="'None' is judged against witnesses in a finite box only (sound, incomplete)."),
+    "C20": dict(cat="fault_enumeration", tech="exhaustive enumeration of partial-computation states x save/load channels (same process and a fresh interpreter) and of every failure point of every save operation (open fails, k-th write fails for every k, unpicklable member in each attribute)", ref="DESIGN.md 4/C20",
+                text="Every object kind (custom, System Z with/without facts and extended, c-representation, built from an impact list) x every subset of computed worlds (2 atoms) / prefix and singleton (3 atoms): save_ocf then load_ocf in-process and in a fresh interpreter must give the same signature, ranks (as saved, lazily continued, completed), impacts and acceptance; impacts and metadata round trips over all formats; every save operation with every single write failure / open failure / unpicklable attribute must raise and leave ranks, impacts, metadata, _optimizer/_csp untouched and the object answering as before.",
+                note="Fresh interpreter = sub-process of the same Python installation that first allocates unrelated formula nodes. Timestamps/provenance metadata keys are ignored."),
 }
 
 NOT_YET = "check under construction in this session (see DESIGN.md section 4 for the planned exploration)"
